@@ -44,13 +44,10 @@ class Canon:
                     if isinstance(r, self.g.ByteBlock) and r.byte_interval is not None and r.section is not None:
                         key = (1, r.section.name, (r.address or 0) - self.sec_base.get(r.section, 0), s.at_end)
                     temps.append((key, mt.group(1), mt.group(2), s))
-            temps.sort(key=lambda t: (t[0], t[1]))
-            suffix_map = {}
             self._names = {}
             for key, basen, suf, s in temps:
-                if suf not in suffix_map:
-                    suffix_map[suf] = len(suffix_map) + 1
-                self._names[s] = f"{basen}_T{suffix_map[suf]}"
+                # the per-invocation suffix is dropped (bases are unique per patch)
+                self._names[s] = f"{basen}_T"
         return self._names.get(sym, sym.name)
 
     # -- node descriptions -------------------------------------------------
